@@ -113,19 +113,24 @@ def run(chk):
     # ---- standardize_dataframe
     std_cols = ["TRAV", "CDR3A", "TRAJ", "TRBV", "CDR3B", "TRBJ", "Epitope", "MHCA", "MHCB"]
     values = {
-        "TRAV": ["av26.1*1", "TCRAV20*01", "TRAV1-1*01", "unknown", "TRAV8-4", "", None, "TRAV40*01"],
+        "TRAV": ["av26.1*1", "TCRAV20*01", "TRAV1-1*01", "unknown", "TRAV8-4", "TRAV8-5", "", None, "TRAV40*01"],
         "TRAJ": ["aj43*1", "TRAJ28*01", "junk", None],
-        "TRBV": ["bv13*1", "TCRBV28S1*01", "TRBV7-2*01", "TRBV1*01", "xx", None],
+        "TRBV": ["bv13*1", "TCRBV28S1*01", "TRBV7-2*01", "TRBV1*01", "TRBV1", "TRBV12-1", "xx", None],
         "TRBJ": ["bj1.5*1", "TRBJ2-4*01", "nope", None],
-        "CDR3A": ["CIVRAPGRADMRF", "AVPSGAGSYQLT", "unknown", "cavr", None, ""],
-        "CDR3B": ["CASSYLPGQGDHYSNQPQHF", "ASSDWGSQNTLY", "CASS LF", None, "12345"],
+        "CDR3A": ["CIVRAPGRADMRF", "AVPSGAGSYQLT", "ATQY", "unknown", "cavr", None, ""],
+        "CDR3B": ["CASSYLPGQGDHYSNQPQHF", "ASSDWGSQNTLY", "ASSQ", "CASS LF", None, "12345"],
         "Epitope": ["FLKEKGGL", "not an epitope", "glcTLVAML", None, ""],
         "MHCA": ["b8", "HLA-DQA1*05", "HLA-A*02:01", "zzz", None],
         "MHCB": ["b2m", "HLA-DQB1*02", "B2M", None, "junk"],
     }
     ops, metas = [], []
-    n_tab = 12 if not thorough else 120
+    prev = None
+    n_tab = 16 if not thorough else 160
+    flip_plan = []
     for t in range(n_tab):
+        if flip_plan:
+            # replay the previous table with exactly one option flipped (a result cached across calls would be stale here)
+            pass
         use = [c for c in std_cols if rng.random() < 0.75] or ["CDR3B"]
         nrow = rng.randint(1, 6)
         data = {c: [rng.choice(values[c]) for _ in range(nrow)] for c in use}
@@ -141,6 +146,21 @@ def run(chk):
                     tcr_enforce_functional=rng.random() < 0.5, tcr_precision=rng.choice(["gene", "allele"]),
                     mhc_precision=rng.choice(["gene", "protein", "allele"]), strict_cdr3_standardization=rng.random() < 0.5,
                     suppress_warnings=True)
+        if t % 2 == 1 and prev is not None:
+            df, mapper, prev_opts = prev
+            df = df.copy(deep=True)
+            opts = dict(prev_opts)
+            opts["standardize"] = True
+            flag = rng.choice(["tcr_enforce_functional", "strict_cdr3_standardization", "tcr_precision", "mhc_precision", "species"])
+            if flag in ("tcr_enforce_functional", "strict_cdr3_standardization"):
+                opts[flag] = not opts[flag]
+            elif flag == "tcr_precision":
+                opts[flag] = "allele" if opts[flag] == "gene" else "gene"
+            elif flag == "mhc_precision":
+                opts[flag] = "protein" if opts[flag] != "protein" else "gene"
+            else:
+                opts[flag] = "MusMusculus" if opts[flag] == "HomoSapiens" else "HomoSapiens"
+        prev = (df.copy(deep=True), mapper, dict(opts, standardize=True))
         before = df.copy(deep=True)
         real = core.call_real(lambda: io.standardize_dataframe(df, col_mapper=mapper, **opts))
         unchanged = df.equals(before) and list(df.columns) == list(before.columns) and list(df.index) == list(before.index)
